@@ -295,6 +295,11 @@ void XMLGrammarPoolImpl::deserializeGrammars(BinInputStream* const binIn)
     // thrown during deserialization.
     JanitorMemFunCall<XMLGrammarPoolImpl>   cleanup(this, &XMLGrammarPoolImpl::cleanUp);
 
+    // the lock status of the stored pool; re-established at the end through
+    // lockPool(), which also creates what a locked pool needs (synchronized
+    // string pool, XSModel)
+    bool wasLocked = false;
+
     try
     {
         XSerializeEngine  serEng(binIn, this);
@@ -321,7 +326,7 @@ void XMLGrammarPoolImpl::deserializeGrammars(BinInputStream* const binIn)
         }
 
         //lock status
-        serEng>>fLocked;
+        serEng>>wasLocked;
 
         //StringPool, don't use >>
         fStringPool->serialize(serEng);
@@ -345,9 +350,11 @@ void XMLGrammarPoolImpl::deserializeGrammars(BinInputStream* const binIn)
     // Everything is OK, so we can release the cleanup object.
     cleanup.release();
 
-    if (fLocked)
+    // the model of a locked pool is built from the grammars just loaded
+    if (wasLocked)
     {
-        createXSModel();
+        fXSModelIsValid = false;
+        lockPool();
     }
 }
 
